@@ -11,7 +11,10 @@
 //! `TimeProvider`; every return value and, after every step, `len`, `is_empty`,
 //! `memory_used`, `cache_limit`, `cache_ttl` and the full `list_entries`
 //! snapshot are compared with a reference LRU (a `Vec` in recency order).
-//! A second, small search drives the public `LruQueue` directly.
+//! After the last step of every history the hidden recency order is probed by
+//! lowering the limit one entry at a time (each time exactly the least recently
+//! used entry must disappear).  A second, small search drives the public
+//! `LruQueue` directly (and drains it with `pop` at the end of every history).
 //!
 //! Documented behaviour followed by the reference (default_cache.rs, type docs):
 //! entries are evicted in least-recently-used order when an insert pushes
@@ -390,6 +393,21 @@ fn run_cache(ops: &[Op], all_steps: bool, mut trace: Option<&mut Vec<String>>) -
         }
     }
     info.key = m.key();
+    // Probe of the hidden recency order (the subject is fresh per history, so the
+    // probe may destroy it): lower the limit to one byte less than what is used —
+    // exactly the least recently used entry must go — until the cache is empty.
+    // Without this a recency-order divergence would stay invisible until a later
+    // eviction and could be lost to state de-duplication.
+    while !m.entries.is_empty() {
+        let l = m.used() - 1;
+        cache.update_cache_limit(l);
+        m.limit = l;
+        let victim = m.entries[0].k;
+        let ev = m.evict();
+        debug_assert!(ev == 1);
+        observe(&cache, &clock, &m)
+            .map_err(|e| format!("recency probe after the history (limit lowered to {l}, least recently used key {victim} must be evicted): {e}"))?;
+    }
     Ok(info)
 }
 
